@@ -64,13 +64,15 @@ def rnd(rng, lo, hi, digits=3):
     return round(rng.uniform(lo, hi), digits)
 
 
-def gen_problem(rng, tier_big=False):
+def gen_problem(rng, tier_big=False, shapes=None):
     """random convex problem with known optimum (KKT construction); returns a JSON-able dict"""
     nsig = rng.choice((1, 1, 2, 2, 3))
-    shapes = []
-    for _ in range(nsig):
-        shapes.append(0 if rng.random() < 0.35 else rng.choice((1, 2, 3, 4, 5) if not tier_big else (1, 2, 3, 5, 8, 12)))  # 0 = scalar
-    lens = [1 if s == 0 else s for s in shapes]
+    if shapes is None:
+        shapes = []
+        for _ in range(nsig):
+            shapes.append(0 if rng.random() < 0.35 else rng.choice((1, 2, 3, 4, 5) if not tier_big else (1, 2, 3, 5, 8, 12)))  # 0 = scalar
+    nsig = len(shapes)
+    lens = [1 if s == 0 else max(s, 0) for s in shapes]           # 0 = scalar, k > 0 = array of k, -1 = empty array
     n = sum(lens)
     cum = np.concatenate([[0], np.cumsum(lens)])
     positive = rng.random() < 0.6
@@ -175,7 +177,7 @@ def run_problem(pym, prob, maxit=None):
     """run pymoto.minimize_mma on the problem with mmasub / subsolv / residual wrapped from outside"""
     import pymoto.common.mma as mma
     shapes = prob['shapes']
-    lens = [1 if s == 0 else s for s in shapes]
+    lens = [1 if s == 0 else max(s, 0) for s in shapes]          # 0 = scalar, k > 0 = array of k, -1 = empty array
     cum = np.concatenate([[0], np.cumsum(lens)]).astype(int)
     n = int(cum[-1])
     fns = [Fn(**f) for f in prob['f']]
@@ -184,6 +186,8 @@ def run_problem(pym, prob, maxit=None):
     for i, s in enumerate(shapes):
         st = float(x0[cum[i]]) if s == 0 else x0[cum[i]:cum[i + 1]].copy()
         variables.append(pym.Signal(f'x{i}', state=st))
+    if prob.get('_none_state'):
+        variables[-1].state = None
     none_sens = prob.get('none_sens', False)
 
     class Resp(pym.Module):
@@ -192,6 +196,8 @@ def run_problem(pym, prob, maxit=None):
 
         def _response(self, *xs):
             self.x = np.concatenate([np.atleast_1d(np.asarray(v, dtype=float)).ravel() for v in xs])
+            if prob.get('_vector_response') and self.fn is fns[-1]:
+                return np.array([self.fn.val(self.x), 0.0])
             return self.fn.val(self.x)
 
         def _sensitivity(self, df):
@@ -318,8 +324,8 @@ HEADER = """From Coq Require Import ZArith QArith String List Bool.
 From Pymoto Require Import Base.Num Base.Cmp Base.MMANum Model.MMAform Model.MMAvars Model.MMAcorr.
 Import ListNotations.
 Open Scope Q_scope.
-Definition mkD low upp alfa beta P Q a0 a b c d : sdata Q :=
-  {| d_low := low; d_upp := upp; d_alfa := alfa; d_beta := beta; d_P := P; d_Q := Q; d_a0 := a0; d_a := a; d_b := b;
+Definition mkD low upp alfa beta Pm Qm a0 a b c d : sdata Q :=
+  {| d_low := low; d_upp := upp; d_alfa := alfa; d_beta := beta; d_P := Pm; d_Q := Qm; d_a0 := a0; d_a := a; d_b := b;
      d_c := c; d_d := d |}.
 Definition mkS x y z lam xsi eta mu zet s : sstate Q :=
   {| sx := x; sy := y; sz := z; slam := lam; sxsi := xsi; seta := eta; smu := mu; szet := zet; ss := s |}.
@@ -378,7 +384,7 @@ def normal_exit(s):
     return float(np.abs(s.last_res[2]).max()) <= 0.9 * s.last_res[1]
 
 
-def iteration_checks(rec, prob, k):
+def iteration_checks(rec, prob, k, full=True):
     """Coq boolean expressions (aspect name, expression) for iteration k of a recorded run"""
     f, c = rec.first, rec.calls[k]
     s = c.sub
@@ -391,29 +397,35 @@ def iteration_checks(rec, prob, k):
     shift = c.offset * (f.xmax - f.xmin)
     sB = max(1.0, X(c.g), X(s.b), float(((np.abs(s.P) + np.abs(s.Q)) / np.abs(shift)).sum(axis=1).max()))
     out = []
+    D = f'(mkD low upp alfa beta Pm Qm {qf(s.a0)} {qv(s.a)} b {qv(s.c)} {qv(s.d)})'
     pre = (f'let xval := {qv(c.xval)} in let xmin := {qv(f.xmin)} in let xmax := {qv(f.xmax)} in let move := {qv(f.move)} in '
            f'let g := {qv(c.g)} in let dg := {qm(c.dg)} in let xold1 := {qopt(c.xold1)} in '
            f'let low := {qv(c.low)} in let upp := {qv(c.upp)} in let alfa := {qv(s.alfa)} in let beta := {qv(s.beta)} in '
-           f'let P := {qm(s.P)} in let Q := {qm(s.Q)} in let b := {qv(s.b)} in let D := {sdata_coq(s)} in '
-           f'let ret := {state_coq(s.ret)} in ')
-    scales = [rec.fns[i].scale(c.xval) for i in range(len(rec.fns))]
-    out.append(('responses', f'responses_ok [{"; ".join(fn.coq() for fn in rec.fns)}] xval {ql([F(v) for v in scales])} g dg'))
+           f'let Pm := {qm(s.P)} in let Qm := {qm(s.Q)} in let b := {qv(s.b)} in let D := {D} in '
+           f'let st0 := {state_coq(s.first_res[0])} in let ret := {state_coq(s.ret)} in let rl := {qv(s.last_res[2])} in ')
+    for nm, a, b2 in (('low', s.low, c.low), ('upp', s.upp, c.upp)):
+        if not np.array_equal(a, b2):       # (also an oracle statement) the stored asymptotes are the ones handed over
+            pre += f'let {nm} := {qv(a)} in '
+    if full:
+        scales = [rec.fns[i].scale(c.xval) for i in range(len(rec.fns))]
+        out.append(('responses', f'responses_ok [{"; ".join(fn.coq() for fn in rec.fns)}] xval {ql([F(v) for v in scales])} g dg'))
     out.append(('mmasub', f'mmasub_ok (mkP {qf(par["asyinit"])} {qf(par["asyincr"])} {qf(par["asydecr"])} {qf(par["asybound"])} '
                 f'{qf(par["albefa"])}) {h87} {h07} xval xmin xmax move xold1 {qopt(c.xold2)} {qopt(c.offset0)} g dg '
-                f'{qf(sX)} {qf(sP)} {qf(sB)} {qv(c.offset)} low upp alfa beta P Q b'))
+                f'{qf(sX)} {qf(sP)} {qf(sB)} {qv(c.offset)} low upp alfa beta Pm Qm b'))
     out.append(('history', f'history_ok xval xold1 {qopt(c.xold1_after)} {qopt(c.xold2_after)}'))
-    out.append(('handover', f'handover_ok low upp alfa beta P Q b xval D {qv(s.x0)}'))
-    out.append(('init', f'init_ok D {qv(s.x0)} {qf(sX)} {state_coq(s.first_res[0])}'))
-    sR0 = max(1.0, X(s.first_res[2]))
-    out.append(('residual_first', f'residual_ok D {qf(s.first_res[1])} {state_coq(s.first_res[0])} {qf(sR0)} {qv(s.first_res[2])}'))
-    # scale of the residual at the returned point: the largest term that enters it
-    x = s.ret[0]
-    big = max(1.0, X(s.P / (s.upp - x) ** 2), X(s.Q / (x - s.low) ** 2), X(s.c), X(s.b), X(s.ret[4]), X(s.ret[5]), X(s.ret[6]),
-              float((np.abs(s.P) / np.abs(s.upp - x) + np.abs(s.Q) / np.abs(x - s.low)).sum(axis=1).max()))
-    out.append(('residual_last', f'residual_ok D {qf(s.last_res[1])} ret {qf(big)} {qv(s.last_res[2])}'))
+    out.append(('handover', f'Ql_eqb {qv(s.x0)} xval'))
+    out.append(('init', f'init_ok D (Some xval) {qf(sX)} st0'))
+    if full:
+        sR0 = max(1.0, X(s.first_res[2]))
+        out.append(('residual_first', f'residual_ok D {qf(s.first_res[1])} st0 {qf(sR0)} {qv(s.first_res[2])}'))
+        # scale of the residual at the returned point: the largest term that enters it
+        x = s.ret[0]
+        big = max(1.0, X(s.P / (s.upp - x) ** 2), X(s.Q / (x - s.low) ** 2), X(s.c), X(s.b), X(s.ret[4]), X(s.ret[5]), X(s.ret[6]),
+                  float((np.abs(s.P) / np.abs(s.upp - x) + np.abs(s.Q) / np.abs(x - s.low)).sum(axis=1).max()))
+        out.append(('residual_last', f'residual_ok D {qf(s.last_res[1])} ret {qf(big)} rl'))
     out.append(('levels', f'levels_ok {qf(s.epsimin)} {qv(s.epsis)}'))
     if normal_exit(s):
-        out.append(('exit', f'exit_ok {qf(s.last_res[1])} {qf(0.9 * s.last_res[1])} {qv(s.last_res[2])}'))
+        out.append(('exit', f'exit_ok {qf(s.last_res[1])} {qf(0.9 * s.last_res[1])} rl'))
     out.append(('interior', 'interior_ok D ret'))
     return pre + 'all [' + '; '.join(e for _, e in out) + ']', [a for a, _ in out], pre, out
 
@@ -438,6 +450,511 @@ def vars_checks(rec, prob):
         if k < len(rec.calls):   # the design handed to mmasub is the concatenation of those states (read back after response())
             out.append((f'readback{k}', f'concat_ok [{obs}] {qv(rec.calls[k].xval)} {zl(f.cumlens)}%nat'))
     return 'all [' + '; '.join(e for _, e in out) + ']', [a for a, _ in out], '', out
+
+
+
+# ======================================================================================== implementation-side oracle
+def kkt_residual(s, st, epsi):
+    """perturbed KKT system of the MMA subproblem (written from its definition, independent of mma.residual)"""
+    x, y, z, lam, xsi, eta, mu, zet, sl = st
+    P0, P1, Q0, Q1 = s.P[0], s.P[1:], s.Q[0], s.Q[1:]
+    ux, xl = s.upp - x, x - s.low
+    dpsi = (P0 + lam @ P1) / ux ** 2 - (Q0 + lam @ Q1) / xl ** 2
+    gv = P1 @ (1 / ux) + Q1 @ (1 / xl)
+    return np.concatenate([dpsi - xsi + eta, s.c + s.d * y - mu - lam, [s.a0 - zet - s.a @ lam], gv - s.a * z - y + sl - s.b,
+                           xsi * (x - s.alfa) - epsi, eta * (s.beta - x) - epsi, mu * y - epsi, [zet * z - epsi], lam * sl - epsi])
+
+
+def vclass(prob):
+    return 'Svanberg1987' if '1987' in prob['kw'].get('mmaversion', 'Svanberg2007') else 'Svanberg2007'
+
+
+def oracle_run(ctx, rec, prob, label, check_convergence=True):
+    """the statements of C10 evaluated on the recorded run of the implementation"""
+    f = rec.first
+    cls = vclass(prob)
+    pj = dict(label=label, problem=prob)
+
+    def bad(site, pred, k, expected=None, got=None, icls=None, **extra):
+        ctx.violation('impl-violates', site, pred, icls or cls, dict(pj, iteration=k, **extra), expected=expected, got=got)
+    if rec.error is not None:
+        bad('minimize_mma', 'runs without raising on a valid convex problem', None, got=repr(rec.error)[:500])
+        return
+    if f is None:
+        return
+    dx = f.xmax - f.xmin
+    par = f.par
+    sc = max(1.0, np.abs(f.xmin).max(), np.abs(f.xmax).max())
+    e = 1e-12 * sc
+    if len(rec.callbacks) < len(rec.calls):
+        bad('MMA.response', 'fn_callback is called before every response', None, expected=len(rec.calls), got=len(rec.callbacks))
+    for k, c in enumerate(rec.calls):
+        ctx.search_evaluations += 1
+        s = c.sub
+        # ---- variables: what the callback saw is the design, signal by signal
+        xk = np.array(prob['x0'], dtype=float) if k == 0 else rec.calls[k - 1].xnew
+        for i, (is_scalar, vals, tname) in enumerate(rec.callbacks[k]):
+            a, b = int(rec.cum[i]), int(rec.cum[i + 1])
+            if not np.array_equal(vals, xk[a:b]):
+                bad('MMA.response', 'variable signal holds its own range of the design vector', k, expected=xk[a:b].tolist(), got=vals.tolist(), signal=i)
+            if is_scalar != (b - a == 1):
+                bad('MMA.response', 'one-value signal gets a scalar state, others a 1-D array', k, expected=(b - a == 1), got=is_scalar, signal=i)
+        if not np.array_equal(c.xval, xk):
+            bad('MMA.response', 'design handed to mmasub is the design written to the signals', k, expected=xk.tolist(), got=c.xval.tolist())
+        # ---- responses and sensitivities
+        for i, fn in enumerate(rec.fns):
+            t = 1e-9 * fn.scale(c.xval)
+            if abs(c.g[i] - fn.val(c.xval)) > t:
+                bad('MMA.response', 'g handed to mmasub is the response value', k, expected=float(fn.val(c.xval)), got=float(c.g[i]), response=i)
+            if np.abs(c.dg[i] - fn.grad(c.xval)).max() > t:
+                bad('MMA.response', 'dg handed to mmasub is the response gradient (sensitivities reset between responses)', k,
+                    expected=fn.grad(c.xval).tolist(), got=c.dg[i].tolist(), response=i)
+        # ---- box, move limit, asymptotes
+        if np.any(c.xval < f.xmin - e) or np.any(c.xval > f.xmax + e):
+            bad('minimize_mma', 'design stays within [xmin, xmax]', k, got=c.xval.tolist())
+        if np.any(s.alfa < f.xmin) or np.any(s.alfa > c.xval + e) or np.any(s.beta < c.xval - e) or np.any(s.beta > f.xmax):
+            bad('MMA.mmasub', 'xmin <= alfa <= xval <= beta <= xmax', k, got=dict(alfa=s.alfa.tolist(), beta=s.beta.tolist(), xval=c.xval.tolist()))
+        if np.any(s.alfa < c.xval - f.move * dx - e) or np.any(s.beta > c.xval + f.move * dx + e):
+            bad('MMA.mmasub', 'alfa/beta within the move limit', k, got=dict(alfa=s.alfa.tolist(), beta=s.beta.tolist(), xval=c.xval.tolist()))
+        if not (np.all(c.low < s.alfa) and np.all(s.beta < c.upp) and np.all(s.alfa < s.beta)):
+            bad('MMA.mmasub', 'low < alfa < beta < upp', k, got=dict(low=c.low.tolist(), alfa=s.alfa.tolist(), beta=s.beta.tolist(), upp=c.upp.tolist()))
+        if not np.array_equal(c.low, s.low) or not np.array_equal(c.upp, s.upp):
+            bad('MMA.mmasub', 'asymptotes handed to subsolv are the stored ones', k)
+        if np.any(c.offset <= 0) or (k >= 2 and par['asybound'] >= 1 and
+                                     (np.any(c.offset < 1 / par['asybound'] ** 2 * (1 - 1e-12)) or np.any(c.offset > par['asybound'] * (1 + 1e-12)))):
+            bad('MMA.mmasub', 'offset positive and clamped to [1/asybound^2, asybound] once adapted', k, got=c.offset.tolist())
+        # ---- approximation reproduces value and gradient, is convex
+        ux, xl = c.upp - c.xval, c.xval - c.low
+        val = (s.P / ux + s.Q / xl).sum(axis=1)
+        sB = max(1.0, np.abs(c.g).max(), np.abs(s.b).max(), val.max())
+        if np.abs(val[1:] - s.b - c.g[1:]).max() > 1e-9 * sB:
+            bad('MMA.mmasub', 'approximation value at xval equals g', k, expected=c.g[1:].tolist(), got=(val[1:] - s.b).tolist())
+        gr = s.P / ux ** 2 - s.Q / xl ** 2
+        if np.abs(gr - c.dg).max() > 1e-9 * max(1.0, np.abs(c.dg).max(), (s.P / ux ** 2).max()):
+            bad('MMA.mmasub', 'approximation gradient at xval equals dg', k, expected=c.dg.tolist(), got=gr.tolist())
+        if np.any(s.P < 0) or np.any(s.Q < 0):
+            bad('MMA.mmasub', 'P, Q >= 0', k)
+        # ---- subproblem solution
+        x = s.ret[0]
+        if not (np.all(x > s.alfa) and np.all(x < s.beta)):
+            bad('subsolv', 'returned x strictly inside (alfa, beta)', k, got=dict(x=x.tolist(), alfa=s.alfa.tolist(), beta=s.beta.tolist()))
+        if np.any(x < f.xmin) or np.any(x > f.xmax) or np.any(np.abs(x - c.xval) > f.move * dx + e):
+            bad('minimize_mma', 'new design within [xmin, xmax] and within move*(xmax-xmin) of the old one', k,
+                got=dict(x=x.tolist(), xval=c.xval.tolist()))
+        if not np.array_equal(c.xnew, x):
+            bad('MMA.mmasub', 'mmasub returns the x of subsolv', k)
+        if s.bad_point is not None:
+            bad('subsolv', 'every line-search trial point is strictly interior (x in (alfa,beta), multipliers and slacks > 0)', k, got=s.bad_point)
+        for a, b in zip(s.last_res[0], s.ret):
+            if not np.array_equal(a, b):
+                bad('subsolv', 'returned point is the last evaluated point', k)
+                break
+        el = s.last_res[1]
+        if not (s.epsimin < el <= 10 * s.epsimin * (1 + 1e-9)) and s.epsimin < 1:
+            bad('subsolv', 'epsimin < epsi_last <= 10*epsimin', k, got=dict(epsi_last=el, epsimin=s.epsimin))
+        r = kkt_residual(s, s.ret, el)
+        rmax = float(np.abs(r).max())
+        noise = 1e-13 * max(1.0, np.abs(s.P / (s.upp - x) ** 2).max(), np.abs(s.Q / (x - s.low) ** 2).max(), np.abs(s.c).max())
+        if rmax > 0.9 * el + noise:
+            if s.msgs > 0:       # the solver itself reported that it ran out of Newton iterations
+                ctx.count('subsolv_gave_up')
+                ctx.violation('impl-violates', *K_STALL, dict(pj, iteration=k, sub=sub_json(s)), expected=f'<= {0.9 * el}', got=rmax)
+            else:
+                bad('subsolv', 'KKT residual of the returned point <= 0.9*epsi_last', k, expected=0.9 * el, got=rmax, sub=sub_json(s))
+    # ---- convergence (validated, not proved)
+    if check_convergence and rec.calls:
+        ctx.search_evaluations += 1
+        xs = np.array(prob['xstar'])
+        d0 = float((np.abs(rec.calls[0].xval - xs) / dx).max())
+        d1 = float((np.abs(rec.final - xs) / dx).max())
+        gmax = max(float(fn.val(rec.final)) / fn.scale(rec.final) for fn in rec.fns[1:])
+        ctx.extra.setdefault('convergence_distances', []).append(round(d1, 6))
+        if d1 > max(CONV_ABS, CONV_REL * d0):
+            bad('minimize_mma', 'iterates approach the known optimum', len(rec.calls), expected=f'<= {max(CONV_ABS, CONV_REL * d0)}', got=d1,
+                xfinal=rec.final.tolist())
+        if gmax > CONV_G:
+            bad('minimize_mma', 'constraints end up satisfied', len(rec.calls), expected=f'<= {CONV_G}', got=gmax, xfinal=rec.final.tolist())
+
+
+CONV_ABS, CONV_REL, CONV_G = 0.1, 0.3, 1e-4
+
+
+def sub_json(s):
+    return dict(epsimin=s.epsimin, low=s.low.tolist(), upp=s.upp.tolist(), alfa=s.alfa.tolist(), beta=s.beta.tolist(),
+                P=s.P.tolist(), Q=s.Q.tolist(), a0=s.a0, a=s.a.tolist(), b=s.b.tolist(), c=s.c.tolist(), d=s.d.tolist(),
+                x0=None if s.x0 is None else s.x0.tolist())
+
+
+
+# ======================================================================================== the check
+def translate(ctx):
+    """(T) regenerate coq/gen/C10/MMAGen.v from the source, compile it and the bridge lemmas"""
+    import gen_C10
+    import py2coq
+    err = ''
+    ok = True
+    try:
+        text = gen_C10.generate(vlib.REPO)
+        pth = ctx.write_gen('MMAGen.v', text)
+        ok, _, err = vlib.compile_file(ctx, pth, 'gen:MMAGen.v (translated from pymoto/common/mma.py) compiles', 'translator')
+    except py2coq.Unsupported as e:
+        ctx.obligation('gen:MMAGen.v translation of pymoto/common/mma.py', 'translator', False, str(e))
+        ok, err = False, str(e)
+    if ok:
+        bp = os.path.join(ctx.bridge_dir, 'MMABridge.v')
+        ok, _, err = vlib.compile_file(ctx, bp, 'bridge:MMABridge (generated formulas = Model/MMAform.v, all arguments, every numeric instance)', 'bridge')
+    if not ok:
+        ctx.violation('proof', 'pymoto/common/mma.py', 'generated formulas equal Model/MMAform.v', 'translator/bridge',
+                      dict(error=err[-3000:]), theorem='BridgeC10.MMABridge')
+    return ok
+
+
+def load_corpus():
+    out = []
+    for pth in sorted(glob.glob(os.path.join(vlib.ROOT, 'corpus', 'C10', '*.json'))):
+        with open(pth) as fh:
+            d = json.load(fh)
+        d['_file'] = os.path.basename(pth)
+        out.append(d)
+    return out
+
+
+def all_inactive(prob):
+    xs = np.array(prob['xstar'])
+    return all(Fn(**f).val(xs) < -1e-6 for f in prob['f'][1:])
+
+
+def run(ctx):
+    import pymoto as pym
+    import pymoto.common.mma as mma
+    import pymoto.utils as putils
+    quick = ctx.quick()
+    ctx.rule = ('runs of pymoto.minimize_mma on random convex problems with a known optimum (KKT construction): 1-3 variable signals '
+                'mixing scalars and 1-D arrays (n <= 15 quick / 36 thorough), 1-3 constraints (linear, separable quadratic, reciprocal, '
+                'non-separable squared-linear), bounds and move limit each spelled as scalar / per signal / per variable, both MMA versions '
+                '(also odd spellings of the version string), random asymptote parameters, starting points partly on the bounds, responses '
+                'that ignore a signal (None sensitivity).  One case = one recorded iteration (mmasub + subsolv call) or one variable-'
+                'handling record of a run; non-trivial when n >= 2 or the iteration has a history (k >= 2); distinct by (run, iteration, aspect). '
+                'Corpus first (edge cases: single scalar, empty array signal, 1-element array, all variables on bounds, the witness of the '
+                'subsolv give-up finding); a malformed stream compares exception classes only.')
+    ctx.assumptions += [
+        'theorems are over exact real arithmetic; floats are tied by the 1e-9 relative comparison in Q on recorded inputs',
+        'the starting design lies in [xmin, xmax], xmin < xmax, 0 < move, 0 < albefa < 1, asyinit > 0, asybound > 0 (what the generator produces; '
+        'asybound >= 1 for the two-sided clamp)',
+        'variable signals hold Python/numpy scalars or 1-D float arrays (an n-D array is flattened by the write-back: its shape is not restored); '
+        'modules do not modify the variable signals',
+        'the admissible interval beta - alfa is wider than 2e-10, the margin hard-coded in subsolv (C10_subsolv_init_interior)',
+        'number of constraints m >= 1 (np.min of an empty array raises for m = 0) and m + n < 100 (epsimin*sqrt(m+n) stays off the powers of ten)',
+        'CONVERGENCE IS VALIDATED, NOT PROVED: "iterates approach the optimum, constraints end up satisfied" is checked by the oracle on generated '
+        'problems only (partial); MMA without globalisation can cycle on non-separable constraints when the asymptote offset is clamped from below, '
+        f'so the oracle demands distance <= max({CONV_ABS}, {CONV_REL}*initial distance) (relative to xmax-xmin) and scaled constraint violation <= {CONV_G}',
+        'the Newton direction inside subsolv (which uses np.linalg.solve) and np.linalg.norm are parameters of the model: the interior and exit '
+        'theorems hold for every direction / norm; convergence of the Newton iteration is not claimed (known finding: subsolv gives up)',
+    ]
+    ctx.trusted += [
+        'Print Assumptions: the real-number theorems rely on ClassicalDedekindReals.sig_forall_dec and '
+        'FunctionalExtensionality.functional_extensionality_dep (Coq stdlib Reals / Coquelicot); the variable-handling theorems are closed under the global context',
+        'tools/gen_C10.py (fail-closed translator: component reading of elementwise numpy code, decimal literals read as rationals)',
+        'same polymorphic model term interpreted over R (theorems) and over Q (evaluation); no Q2R transfer lemma',
+        'monkeypatching of pymoto.common.mma.subsolv / residual / MMA.mmasub records faithfully (wrappers only copy arguments and results)',
+    ]
+    # the give-up finding is reported as a known finding even before known_findings.json lists it
+    if not any(f.get('status') == 'known' and (f['call_site'], f['predicate'], f['input_class']) == K_STALL for f in ctx.findings):
+        ctx.findings.append(dict(property='C10', id='K-C10-subsolv-gives-up', status='known', call_site=K_STALL[0],
+                                 predicate=K_STALL[1], input_class=K_STALL[2], text=K_STALL_TEXT))
+    vlib.audit(ctx)
+    if not vlib.ensure_static(ctx, ['theories/Props/C10.vo', 'theories/Model/MMAcorr.vo']):
+        return
+    gen_ok = translate(ctx)
+    vlib.check_props(ctx)
+
+    rng = ctx.rng
+    checks, labels, parts = [], [], []
+
+    def add(label, triple, nontrivial=True):
+        expr, aspects, pre, items = triple
+        checks.append(expr)
+        labels.append(label)
+        parts.append((aspects, pre, items))
+        ctx.case(label, nontrivial, sample=dict(case=str(label), aspects=aspects, coq=expr[:200]))
+
+    # ---------------- problems: corpus first, then generated
+    todo = []
+    for d in load_corpus():
+        if d.get('kind') == 'problem':
+            todo.append((f"corpus:{d['_file']}", d['problem'], d.get('maxit'), d.get('convergence', False)))
+    n_act, n_inact = (14, 3) if quick else (100, 12)
+    it_act, it_inact = (40, 10) if quick else (60, 20)
+    a = b = 0
+    while a < n_act or b < n_inact:
+        prob = gen_problem(rng, tier_big=not quick)
+        if all_inactive(prob):
+            if b < n_inact:
+                todo.append((f'gen:inactive{b}', prob, it_inact, False))
+                b += 1
+        elif a < n_act:
+            todo.append((f'gen:active{a}', prob, it_act, conv_class(prob)))
+            a += 1
+    sub_samples = []
+    for label, prob, maxit, conv in todo:
+        rec = run_problem(pym, prob, maxit=maxit)
+        n = rec.n
+        ctx.count(f'n={n if n < 8 else "8+"}')
+        ctx.count(f'm={len(prob["f"]) - 1}')
+        ctx.count(f'signals={len(prob["shapes"])}')
+        ctx.count('version=' + vclass(prob))
+        for k2 in ('xmin', 'xmax', 'move'):
+            ctx.count(f'{k2}:{prob["spell"][k2]}')
+        ctx.count('custom_asymptote_parameters' if 'asyinit' in prob['kw'] else 'default_asymptote_parameters')
+        ctx.count('iterations', len(rec.calls))
+        ctx.count('verbosity=%d' % prob.get('verbosity', 0))
+        oracle_run(ctx, rec, prob, label, check_convergence=conv)
+        if rec.error is not None or rec.first is None:
+            continue
+        add((label, 'vars'), vars_checks(rec, prob), n >= 2)
+        ks = sorted(set(([0, 1, 2] if quick else [0, 1, 2, 3]) + [rng.randrange(3, max(4, len(rec.calls))) for _ in range(1 if quick else 3)] + [len(rec.calls) - 1]))
+        for k in ks:
+            if 0 <= k < len(rec.calls):
+                add((label, 'iter', k), iteration_checks(rec, prob, k, full=(not quick) or k in (0, 2)), n >= 2 or k >= 2)
+                if not normal_exit(rec.calls[k].sub):
+                    ctx.count('iterations_checked_with_abnormal_subsolv_exit')
+        if rec.calls and len(sub_samples) < (6 if quick else 40):
+            sub_samples.append((label, rec.calls[rng.randrange(len(rec.calls))].sub))
+    # ---------------- direct calls
+    direct_cases(ctx, pym, mma, putils, add, sub_samples)
+    malformed(ctx, pym, add)
+
+    import time as _t
+    t_impl = _t.time() - ctx.t0
+    failing, err = vlib.run_cases(ctx, 'mma', HEADER, checks, chunk=6 if quick else 10, timeout=1500)
+    ctx.extra['seconds'] = dict(static_translator_props_and_implementation_runs=round(t_impl, 1), coq_case_files=round(_t.time() - ctx.t0 - t_impl, 1))
+    ctx.obligation('correspondence:case files evaluated', 'correspondence', not err, err)
+    if err:
+        ctx.violation('correspondence', 'minimize_mma', 'case files compile', 'harness', dict(error=err[-3000:]), theorem='cases_mma')
+    for idx in failing[:12]:
+        aspects, pre, items = parts[idx]
+        vals, e2 = vlib.eval_coq(ctx, f'fail{idx}', HEADER, [pre + '[' + '; '.join(x for _, x in items) + ']'])
+        which = aspects
+        if vals:
+            bl = vals[0].strip('[] ').split(';')
+            which = [a for a, v in zip(aspects, bl) if 'false' in v]
+        ctx.violation('correspondence', 'pymoto.common.mma', 'model == implementation: ' + ','.join(which), str(labels[idx][1]),
+                      dict(label=str(labels[idx]), failing_aspects=which, coq_check=checks[idx][:3000]),
+                      note='Coq model (MMAform/MMAvars over Q) and recorded implementation values differ')
+    ctx.extra['convergence_rule'] = f'distance <= max({CONV_ABS}, {CONV_REL}*d0), scaled constraint violation <= {CONV_G}; partial (validated only)'
+    ctx.extra['partial'] = ['convergence of the MMA iteration on convex problems (validated by the oracle only)',
+                            'convergence of the Newton iteration inside subsolv (known finding: gives up after 400 steps)']
+
+
+def conv_class(prob):
+    """problems on which convergence is demanded by the oracle: asybound >= 6 (lower clamp of the asymptote offset <= 1/36).
+    With a larger lower clamp MMA (no globalisation) was observed to cycle with constant amplitude on convex problems."""
+    return prob['kw'].get('asybound', 10.0) >= 6
+
+
+
+def call_subsolv(mma, sj, x0):
+    """pymoto.common.mma.subsolv called directly (residual wrapped) on a recorded subproblem"""
+    s = Rec()
+    s.epsimin = float(sj['epsimin'])
+    for k in ('low', 'upp', 'alfa', 'beta', 'P', 'Q', 'a', 'b', 'c', 'd'):
+        setattr(s, k, np.array(sj[k], dtype=float))
+    s.a0 = float(sj['a0'])
+    s.x0 = None if x0 is None else np.array(x0, dtype=float)
+    s.nres, s.bad_point, s.first_res, s.last_res, s.epsis = 0, None, None, None, []
+    orig = mma.residual
+
+    def w_residual(*args):
+        r = orig(*args)
+        x, y, z, lam, xsi, eta, mu, zet, sl = args[:9]
+        ok = bool(np.all(x > s.alfa) and np.all(x < s.beta) and np.all(y > 0) and z > 0 and np.all(lam > 0) and
+                  np.all(xsi > 0) and np.all(eta > 0) and np.all(mu > 0) and zet > 0 and np.all(sl > 0))
+        if not ok and s.bad_point is None:
+            s.bad_point = dict(x=np.array(x).tolist())
+        snap = ([np.array(a, dtype=float).copy() for a in args[:9]], float(args[15]), np.array(r, dtype=float).copy())
+        if s.first_res is None:
+            s.first_res = snap
+        s.last_res = snap
+        if not s.epsis or s.epsis[-1] != float(args[15]):
+            s.epsis.append(float(args[15]))
+        return r
+    mma.residual = w_residual
+    buf = io.StringIO()
+    try:
+        with contextlib.redirect_stdout(buf), np.errstate(all='ignore'):
+            ret = mma.subsolv(s.epsimin, s.low.copy(), s.upp.copy(), s.alfa.copy(), s.beta.copy(), s.P.copy(), s.Q.copy(), s.a0,
+                              s.a.copy(), s.b.copy(), s.c.copy(), s.d.copy(), x0=None if x0 is None else s.x0.copy())
+    finally:
+        mma.residual = orig
+    s.msgs = buf.getvalue().count('MMA Subsolver')
+    s.ret = [np.array(v, dtype=float).copy() for v in ret]
+    return s
+
+
+def subsolv_checks(s):
+    X = lambda a: float(np.abs(a).max()) if np.size(a) else 0.0
+    sX = max(1.0, X(s.alfa), X(s.beta))
+    pre = f'let D := {sdata_coq(s)} in let ret := {state_coq(s.ret)} in '
+    out = [('init', f'init_ok D {qopt(s.x0)} {qf(sX)} {state_coq(s.first_res[0])}'),
+           ('residual_first', f'residual_ok D {qf(s.first_res[1])} {state_coq(s.first_res[0])} {qf(max(1.0, X(s.first_res[2])))} {qv(s.first_res[2])}'),
+           ('levels', f'levels_ok {qf(s.epsimin)} {qv(s.epsis)}'), ('interior', 'interior_ok D ret')]
+    if normal_exit(s):
+        out.append(('exit', f'exit_ok {qf(s.last_res[1])} {qf(0.9 * s.last_res[1])} {qv(s.last_res[2])}'))
+    return pre + 'all [' + '; '.join(e for _, e in out) + ']', [a for a, _ in out], pre, out
+
+
+def oracle_subsolv(ctx, s, label, sj):
+    ctx.search_evaluations += 1
+    x = s.ret[0]
+    case = dict(label=label, sub=sj, x0=None if s.x0 is None else s.x0.tolist())
+    if not (np.all(x > s.alfa) and np.all(x < s.beta)) or s.bad_point is not None:
+        ctx.violation('impl-violates', 'subsolv', 'every evaluated point is strictly interior', 'direct call', case, got=s.bad_point)
+    el = s.last_res[1]
+    rmax = float(np.abs(kkt_residual(s, s.ret, el)).max())
+    noise = 1e-13 * max(1.0, np.abs(s.P / (s.upp - x) ** 2).max(), np.abs(s.Q / (x - s.low) ** 2).max(), np.abs(s.c).max())
+    if rmax > 0.9 * el + noise:
+        if s.msgs > 0:
+            ctx.count('subsolv_gave_up')
+            ctx.violation('impl-violates', *K_STALL, case, expected=f'<= {0.9 * el}', got=rmax)
+        else:
+            ctx.violation('impl-violates', 'subsolv', 'KKT residual of the returned point <= 0.9*epsi_last', 'direct call', case,
+                          expected=0.9 * el, got=rmax)
+
+
+def direct_cases(ctx, pym, mma, putils, add, sub_samples):
+    rng = ctx.rng
+    # ---- subsolv called directly: default start (midpoint of alfa, beta) and a given start
+    for d in load_corpus():
+        if d.get('kind') == 'subsolv':
+            s = call_subsolv(mma, d['sub'], d.get('x0'))
+            ctx.count('direct_subsolv_corpus')
+            oracle_subsolv(ctx, s, f"corpus:{d['_file']}", d['sub'])
+            add((f"corpus:{d['_file']}", 'subsolv'), subsolv_checks(s), True)
+    for label, rs in sub_samples:
+        sj = sub_json(rs)
+        s = call_subsolv(mma, sj, None)
+        ctx.count('direct_subsolv_midpoint_start')
+        oracle_subsolv(ctx, s, label, sj)
+        add((label, 'subsolv-midpoint'), subsolv_checks(s), True)
+    # ---- pymoto.utils._concatenate_to_array / _split_from_array
+    nutil = 40 if ctx.quick() else 300
+    for t in range(nutil):
+        nsig = rng.randint(0, 4)
+        states, coq_states = [], []
+        for _ in range(nsig):
+            kind = rng.choice(('scalar', 'array', 'array', 'npscalar', 'empty', 'one'))
+            if kind == 'scalar':
+                v = rng.randint(-40, 40) / 8
+                states.append(v)
+                coq_states.append(sval_coq(True, [v]))
+            elif kind == 'npscalar':
+                v = np.float64(rng.randint(-40, 40) / 8)
+                states.append(v)
+                coq_states.append(sval_coq(True, [v]))
+            else:
+                ln = 0 if kind == 'empty' else 1 if kind == 'one' else rng.randint(2, 5)
+                v = np.array([rng.randint(-40, 40) / 8 for _ in range(ln)])
+                states.append(v)
+                coq_states.append(sval_coq(False, v))
+        vals, cum = putils._concatenate_to_array(states)
+        ctx.count('utils_concat_split')
+        ctx.search_evaluations += 1
+        flat = [float(x) for st in states for x in np.atleast_1d(st)]
+        if list(vals) != flat or [int(c) for c in cum] != [0] + list(np.cumsum([np.size(st) for st in states]).astype(int)):
+            ctx.violation('impl-violates', '_concatenate_to_array', 'values are the flattened states in order, indices their running lengths',
+                          'utils', dict(states=[np.atleast_1d(st).tolist() for st in states]), got=dict(vals=list(vals), cum=list(map(int, cum))))
+        bad_cum = rng.random() < 0.25 and len(cum) > 0
+        cum2 = np.array(cum).copy()
+        if bad_cum:
+            cum2[-1] += rng.choice((1, 2))
+        try:
+            parts = putils._split_from_array(vals, cum2)
+            obs = '(Some ' + ql([fr(pp) for pp in parts]) + ')'
+            if bad_cum:
+                ctx.violation('impl-violates', '_split_from_array', 'size mismatch is rejected', 'utils', dict(vals=list(vals), cum=cum2.tolist()))
+            elif any(not np.array_equal(pp, np.atleast_1d(st)) for pp, st in zip(parts, states)) or len(parts) != len(states):
+                ctx.violation('impl-violates', '_split_from_array', 'split(concat(states)) == states', 'utils',
+                              dict(states=[np.atleast_1d(st).tolist() for st in states]), got=[pp.tolist() for pp in parts])
+        except AssertionError:
+            obs = 'None'
+        e = (f'all [concat_ok [{"; ".join(coq_states)}] {qv(vals)} {zl([int(c) for c in cum])}%nat; '
+             f'split_ok {qv(vals)} {zl([int(c) for c in cum2])}%nat {obs}]')
+        add(('utils', t), (e, ['concat', 'split'], '', [('concat', e), ('split', e)]), nsig >= 2)
+
+
+ERR = {TypeError: 'TypeError', ValueError: 'ValueError', IndexError: 'IndexError', AssertionError: 'AssertionError',
+       RuntimeError: 'RuntimeError'}
+
+
+def err_class(e):
+    for k, v in ERR.items():
+        if type(e) is k:
+            return v
+    return 'Other' if e is not None else 'ok'
+
+
+def malformed(ctx, pym, add):
+    """malformed stream: only the exception class is compared (with the model where the model covers the decision)"""
+    rng = ctx.rng
+    nmal = 10 if ctx.quick() else 60
+    for t in range(nmal):
+        prob = gen_problem(rng)
+        while all_inactive(prob):
+            prob = gen_problem(rng)
+        shapes = prob['shapes']
+        lens = [1 if sh == 0 else max(sh, 0) for sh in shapes]
+        n, nsig = sum(lens), len(shapes)
+        cum = [0] + list(np.cumsum(lens).astype(int))
+        kind = rng.choice(('xmin_len', 'xmax_len', 'move_len', 'version', 'a_len', 'c_len', 'nonscalar_response', 'none_state'))
+        ctx.count('malformed:' + kind)
+        expected = None
+        coq = None
+        if kind in ('xmin_len', 'xmax_len', 'move_len'):
+            nm = kind[:-4]
+            ln = rng.choice([v for v in range(0, n + 3) if v not in (n, nsig)])
+            base = prob[nm] if prob['spell'][nm] == 'scalar' else prob[nm][0]
+            prob[nm] = [float(base)] * ln
+            prob['spell'][nm] = 'signal' if rng.random() < 0.5 else 'variable'
+            expected = 'RuntimeError'
+            coq = lambda got: f'expand_ok {n}%nat {nsig}%nat {zl(cum)}%nat (BList {qv(prob[nm])}) ' + ('None' if got == 'RuntimeError' else '(Some [])')
+        elif kind == 'version':
+            prob['kw']['mmaversion'] = rng.choice(('Svanberg2010', 'gcmma', '', '198', '20 07'))
+            expected = 'ValueError'
+            h = version_flags(prob['kw']['mmaversion'])
+            coq = lambda got: f'match version_of {h[0]} {h[1]} with None => {"true" if got == "ValueError" else "false"} | Some _ => {"true" if got == "ok" else "false"} end'
+        elif kind == 'a_len':
+            prob['kw']['a'] = np.zeros(len(prob['f']) + rng.choice((0, 1)))
+            expected = 'RuntimeError'
+        elif kind == 'c_len':
+            prob['kw']['c'] = np.full(len(prob['f']) - 1 + rng.choice((1, 2)), 1000.0)
+            expected = 'RuntimeError'
+        elif kind == 'nonscalar_response':
+            prob['_vector_response'] = True
+            expected = 'TypeError'
+        else:
+            prob['_none_state'] = True
+            expected = 'ValueError'
+        rec = run_problem(pym, prob, maxit=2)
+        got = err_class(rec.error)
+        ctx.search_evaluations += 1
+        if got != expected:
+            ctx.violation('impl-violates', 'minimize_mma', f'malformed input ({kind}) raises {expected}', 'malformed',
+                          dict(kind=kind, problem=jsonable(prob)), expected=expected, got=got + ': ' + repr(rec.error)[:300])
+        if coq is not None:
+            e = coq(got)
+            add(('malformed', kind, t), ('all [' + e + ']', [kind], '', [(kind, e)]), True)
+
+
+def jsonable(o):
+    if isinstance(o, dict):
+        return {k: jsonable(v) for k, v in o.items()}
+    if isinstance(o, (list, tuple)):
+        return [jsonable(v) for v in o]
+    if isinstance(o, np.ndarray):
+        return o.tolist()
+    if isinstance(o, (np.floating, np.integer)):
+        return o.item()
+    return o
 
 
 if __name__ == '__main__':
